@@ -32,6 +32,9 @@ def header_skip(decm, facts):
         return False, True, 0, ""
     h = decm.hdr
     if not h["found"]:
+        if h.get("const_skip") is not None:
+            return True, False, 0, ("the decoder takes the fixed header to be %d bytes long: a packet whose remaining length needs more than one "
+                                    "byte (128 bytes or more) is read from the wrong place" % h["const_skip"])
         return True, False, 0, "the decoder reads the body without skipping the remaining-length field"
     el, dl = facts["length"]
     ok = h["mask"] == dl["test"] and h["start"] == 1 and h["plus"] == 1 and h.get("step", 1) == 1
